@@ -611,7 +611,10 @@ func (ck *Check) count() int {
 		}
 	}
 	per := n / nshd
-	if shard < n%nshd {
+	// the remainder goes to consecutive shards starting at one derived from the check's name, so that
+	// several checks with a budget of one case do not all land on shard 0
+	first := int(hashName(ck.Name) % uint64(nshd))
+	if (shard-first+nshd)%nshd < n%nshd {
 		per++
 	}
 	return per
